@@ -129,6 +129,8 @@ def mk_algo(bt, a, spec, frames):
         return A.RunEveryNPeriods(p["n"], p.get("offset", 0))
     if name == "Or":
         return A.Or([mk_algo(bt, x, spec, frames) for x in p["algos"]])
+    if name == "Stack":
+        return bt.core.AlgoStack(*[mk_algo(bt, x, spec, frames) for x in p["algos"]])
     if name == "Not":
         return A.Not(mk_algo(bt, p["algo"], spec, frames))
     if name == "SelectAll":
